@@ -74,6 +74,9 @@ def mkCfg (style : Generated.Style) (flags : String) (render : RInfo → Text) (
 
 /-- the RInfo `create_header` hands to the template for this invocation (none when no header is rendered) -/
 def hdrInfo (c : HdrCfg) (replace skipExisting : Bool) (info : Extracted) (text : Text) : Option RInfo :=
+  let text := match text with           -- a leading byte order mark is set aside (Model.annotateFile)
+    | ch :: rest => if ch == bomChar then rest else text
+    | [] => []
   if skipExisting && containsReuseInfo c.parses text then none
   else
     let norm := Py.replace text (detectLineEnding text) ['\n']
@@ -85,7 +88,7 @@ def hdrInfo (c : HdrCfg) (replace skipExisting : Bool) (info : Extracted) (text 
           | none => ([], [], norm)
         (moveShebang c.style.shebangs before header after).2.1
       else []
-    if header.isEmpty then some ⟨sortTexts info.cpr, sortTexts info.con, sortTexts info.lic⟩
+    if header.isEmpty then some ⟨sortTexts (if c.merge then mergeLines info.cpr else info.cpr), sortTexts info.con, sortTexts info.lic⟩
     else
       let existing := extractRaw header
       if !(existing.lic.all c.parses) then none
@@ -117,7 +120,7 @@ def stepHeader (fields : List String) : Option String :=
         else none
       let c := mkCfg (← findStyle style) flags render (← decodeList bad)
       let f := flags.toList
-      match annotateText c (f.getD 3 '0' == '1') (f.getD 4 '0' == '1') ⟨← decodeList lic, ← decodeList cpr, ← decodeList con⟩ (← decodeText t) with
+      match annotateFile c (f.getD 3 '0' == '1') (f.getD 4 '0' == '1') ⟨← decodeList lic, ← decodeList cpr, ← decodeList con⟩ (← decodeText t) with
       | .written t => pure ("W:" ++ encodeText t)
       | .skipped => pure "S"
       | .failed .commentCreate => pure "F:commentCreate"
